@@ -33,7 +33,7 @@ def jobs(tier: str):
         return cfgs
 
     fams = ["C08", "C10", "C11", "C12", "C13", "C14", "C16"]
-    yield from compose.remap(compose.family_jobs(fams, tier, variants=12), "C06", mk, keep=slice_keep(tier))
+    yield from compose.remap(compose.family_jobs(fams, tier, variants=12), "C06", mk, keep=slice_keep("quick"))
 
 
 def main(tier: str, seed: int) -> int:
